@@ -38,7 +38,8 @@ FOLLOWS_HELPERS = {"C02-R1": "universal over every function of both engine files
                    "C02-R5": "helpers that only announce, and helpers that create the session called from a function that delivers data, are expanded in place; other moves leave fewer obligations than the floor, which is a refusal raised by the rule itself",
                    "C02-R6": "universal: every write of _nextSessionId in either engine file, whatever function it is in",
                    "C02-R8": "the close handler is judged on a view in which every Impl method it runs through (named handler, one method per step) is expanded in place; the observer-list and setSessionData clauses scan every function of the file",
-                   "C02-R9": "the close-handler side is read from the same expanded view; a flush loop that is no longer in setReadMode is a refusal raised by the rule itself"}
+                   "C02-R9": "the close-handler side is read from the same expanded view; a flush loop that is no longer in setReadMode is a refusal raised by the rule itself",
+                   "C02-R10": "is c06.r5 + c06.r6 (C06-R5 / C06-R6, exempt there for the same reason): judged on the flattened functions of the UDP engine"}
 NOT_DECIDED = ["which close site is reached in which session state at run time (the schedule quantifier)",
                "'never none while the transport keeps running' for sessions that see no event (liveness)",
                "observer registration racing the close"]
@@ -1395,6 +1396,16 @@ def r9(ctx, r):
              okdesc="close handler waits the flush out / flusher re-validates a closing flag")
 
 
+def r10(ctx, r):
+    """'no data callback after the close' on a UDP listener: readFromListener picks the delivery session through _peerIndex, so a route that
+    survives its session's close (or is taken over by a session that does not clean it up) delivers datagrams under a closed id.  The two
+    C06 rules that keep index and session table coherent decide exactly this; they are run here under this property's id."""
+    c06 = __import__("iora_sa.props.c06", fromlist=["r5"])
+    c06.resolve_state(ctx.fb())
+    c06.r5(ctx, r)
+    c06.r6(ctx, r)
+
+
 def run(ctx, ck):
     ck.run_rule("C02-R1", "close notifications are fired only from the closed set of sites", "A3 who-may-call", lambda r: r1(ctx, r))
     ck.run_rule("C02-R2", "close is idempotent: !closed → closed=true → erase → notify", "A5 + A2", lambda r: r2(ctx, r))
@@ -1407,3 +1418,6 @@ def run(ctx, ck):
     ck.run_rule("C02-R7", "session gauge: every insert bumps, every decrement is on the closed-guarded path", "A2", lambda r: r7(ctx, r))
     ck.run_rule("C02-R9", "an application-thread flush cannot deliver data after the session's close notification", "protocol rule: wait-out or flag/test agreement between flusher and close handler", lambda r: r9(ctx, r))
     ck.run_rule("C02-R8", "transport close fan-out order and lock discipline", "A2 + A1", lambda r: r8(ctx, r))
+    ck.run_rule("C02-R10", "UDP: a closed listener-side session leaves no route behind — the peer index never maps a peer to a session that has been announced closed "
+                "(= C06-R5 + C06-R6: index entries are erased by their owner, never overwritten, and a ServerPeer session leaves the table only through the index clean-up)",
+                "A5 contradiction rule + A2", lambda r: r10(ctx, r))
